@@ -128,6 +128,21 @@ def run(ctx):
                                                             want='c08', creds_obj=obj, extra={'_rep': rep, '_scopes': list(scopes)},
                                                             enforcer=enforcer)
                                         cases.append(c)
+    # the enforce_scope option set the way a service sets it - one opts.set_defaults call that also names the
+    # policy file - and the authorize entry point with do_raise passed by keyword position
+    for enf in (False, True):
+        for scopes in (['system'], ['project'], ['domain', 'project']):
+            for sys, dom, proj in ((0, 0, 1), (1, 0, 0), (0, 1, 0)):
+                for allow in (1, 0):
+                    roles = ['test'] if allow else ['other']
+                    for rep, abstract, obj in creds_reps(sys, dom, proj, roles, 'system_scope', extra_domains=False):
+                        for call, via in (({'by': 'name', 'name': 'p:x', 'doraise': 0}, 'set_defaults'),
+                                          ({'by': 'name', 'name': 'p:x', 'doraise': 1}, 'set_defaults'),
+                                          ({'by': 'name', 'name': 'p:x', 'doraise': 1, 'authorize': 1}, 'rules_obj'),
+                                          ({'by': 'name', 'name': 'p:x', 'doraise': 0, 'authorize': 1}, 'set_defaults')):
+                            cases.append(ec.enforce_case([('p:x', ev.role('test'))], call, {}, abstract, dflt=('opt', None),
+                                                         registered=[('p:x', list(scopes))], enforce_scope=enf, want='c08', creds_obj=obj,
+                                                         extra={'_rep': rep, '_scopes': list(scopes)}, via=via))
     # scope types come from the registered default also when that default was merged with a
     # deprecated predecessor (loader traces carry the scope probe "scopeblk" at every load)
     from checks import loader_common as lc
